@@ -1,5 +1,5 @@
 (* Paths, subtrees and the small inversion lemmas for the boolean node tests used by the rule classifiers. *)
-From Coq Require Import List NArith ZArith QArith Bool Lia.
+From Coq Require Import List NArith ZArith QArith Bool Lia Arith.
 From Mathy Require Import Num Expr.
 Import ListNotations.
 
@@ -46,3 +46,67 @@ Lemma cval_inv o v : cval o = Some v -> o = Some (Const v).
 Proof. destruct o as [[n| | |]|]; simpl; try discriminate. now intros [= ->]. Qed.
 Lemma olft_some k l r : olft (Some (Bin k l r)) = Some l. Proof. reflexivity. Qed.
 Lemma orgt_some k l r : orgt (Some (Bin k l r)) = Some r. Proof. reflexivity. Qed.
+
+(* the in-order enumeration of positions: every node exactly once *)
+Lemma inorder_paths_prefix e : forall pre, inorder_paths e pre = map (app pre) (inorder_paths e []).
+Proof.
+  induction e as [n|v|u c IH|k l IHl r IHr]; intros pre; simpl.
+  - now rewrite app_nil_r.
+  - now rewrite app_nil_r.
+  - rewrite app_nil_r. f_equal. rewrite (IH (pre ++ [DR])), (IH [DR]), map_map. apply map_ext. intros a. now rewrite <- app_assoc.
+  - rewrite map_app. simpl. rewrite app_nil_r. rewrite (IHl (pre ++ [DL])), (IHl [DL]), (IHr (pre ++ [DR])), (IHr [DR]), !map_map.
+    f_equal; [apply map_ext; intros a; now rewrite <- app_assoc|]. f_equal. apply map_ext. intros a. now rewrite <- app_assoc.
+Qed.
+Lemma inorder_paths_length e : length (inorder_paths e []) = size e.
+Proof.
+  induction e as [n|v|u c IH|k l IHl r IHr]; cbn [inorder_paths size length]; auto.
+  - cbn [app]. rewrite (inorder_paths_prefix c [DR]), map_length. f_equal. exact IH.
+  - cbn [app]. rewrite app_length. cbn [length]. rewrite (inorder_paths_prefix l [DL]), (inorder_paths_prefix r [DR]), !map_length. rewrite Nat.add_succ_r. f_equal. f_equal; assumption.
+Qed.
+Lemma inorder_paths_valid e : Forall (fun p => subtree e p <> None) (inorder_paths e []).
+Proof.
+  induction e as [n|v|u c IH|k l IHl r IHr]; simpl.
+  - repeat constructor. discriminate.
+  - repeat constructor. discriminate.
+  - constructor; [discriminate|]. rewrite inorder_paths_prefix. apply Forall_forall. intros p Hp. apply in_map_iff in Hp.
+    destruct Hp as (q & <- & Hq). simpl. rewrite Forall_forall in IH. now apply IH.
+  - apply Forall_app. split.
+    + rewrite inorder_paths_prefix. apply Forall_forall. intros p Hp. apply in_map_iff in Hp. destruct Hp as (q & <- & Hq). simpl. rewrite Forall_forall in IHl. now apply IHl.
+    + constructor; [discriminate|]. rewrite inorder_paths_prefix. apply Forall_forall. intros p Hp. apply in_map_iff in Hp. destruct Hp as (q & <- & Hq). simpl.
+      rewrite Forall_forall in IHr. now apply IHr.
+Qed.
+Lemma inorder_paths_complete e : forall p, subtree e p <> None -> In p (inorder_paths e []).
+Proof.
+  induction e as [n|v|u c IH|k l IHl r IHr]; intros p Hp; destruct p as [|d q]; cbn [inorder_paths app].
+  - now left.
+  - exfalso. apply Hp. destruct d; reflexivity.
+  - now left.
+  - exfalso. apply Hp. destruct d; reflexivity.
+  - now left.
+  - destruct d; [exfalso; apply Hp; reflexivity|]. right. rewrite (inorder_paths_prefix c [DR]). apply in_map_iff. exists q. split; auto.
+  - apply in_or_app. right. now left.
+  - destruct d.
+    + apply in_or_app. left. rewrite (inorder_paths_prefix l [DL]). apply in_map_iff. exists q. split; auto.
+    + apply in_or_app. right. right. rewrite (inorder_paths_prefix r [DR]). apply in_map_iff. exists q. split; auto.
+Qed.
+
+(* positions outside the rewritten subtree *)
+Definition incomparable (q q2:path) : Prop := (forall c, q2 <> q ++ c) /\ (forall c, q <> q2 ++ c).
+Lemma replace_disjoint : forall q root b q2, incomparable q q2 -> subtree (replace root q b) q2 = subtree root q2.
+Proof.
+  induction q as [|d q IH]; intros root b q2 (H1 & H2).
+  - exfalso. apply (H1 q2). reflexivity.
+  - destruct q2 as [|d2 q2']; [exfalso; apply (H2 (d :: q)); reflexivity|].
+    destruct root as [n|v|u c|k l r]; simpl; try reflexivity.
+    + destruct d; simpl; [reflexivity|]. destruct d2; [reflexivity|]. apply IH. split; intros c0 E; [apply (H1 c0)|apply (H2 c0)]; simpl; now f_equal.
+    + destruct d, d2; simpl; try reflexivity; apply IH; split; intros c0 E; [apply (H1 c0)|apply (H2 c0)|apply (H1 c0)|apply (H2 c0)]; simpl; now f_equal.
+Qed.
+(* nodes above the rewritten subtree keep their kind and payload *)
+Definition label (e:expr) : expr := match e with Const n => Const n | Var v => Var v | Un u _ => Un u (Const (NInt 0)) | Bin k _ _ => Bin k (Const (NInt 0)) (Const (NInt 0)) end.
+Lemma replace_above : forall q2 root c d b, subtree root (q2 ++ d :: c) <> None ->
+  option_map label (subtree (replace root (q2 ++ d :: c) b) q2) = option_map label (subtree root q2).
+Proof.
+  induction q2 as [|d2 q2 IH]; intros root c d b Hs; simpl in *.
+  - destruct root as [n|v|u e|k l r]; destruct d; simpl in *; try reflexivity; try (exfalso; apply Hs; reflexivity).
+  - destruct root as [n|v|u e|k l r]; destruct d2; simpl in *; try reflexivity; try (exfalso; apply Hs; reflexivity); apply IH; exact Hs.
+Qed.
